@@ -22,6 +22,7 @@ type PropertyInfo struct {
 	Decides     string   // the clauses decided
 	NotCovered  string   // what of the statement is not decided
 	Assumptions []string
+	Technique   string // deciding method, when it differs from the common description
 }
 
 var (
